@@ -38,6 +38,38 @@ func TestDump(t *testing.T) {
 		}
 		fmt.Printf("   tails=%v clobber=%v nret=%d len=%d\n   notes=%v\n", res.Tails, res.Clobber, res.NRet, res.LenConst, res.Notes)
 	}
+	for _, spec := range strings.Fields(os.Getenv("MUT")) {
+		fn := prog.Func(spec)
+		if fn == nil {
+			t.Fatalf("no func %s", spec)
+		}
+		res, err := New(prog.SPkg).AnalyzeMutator(fn)
+		fmt.Printf("== MUT %s\n", spec)
+		if err != nil {
+			fmt.Println("   error:", err)
+			continue
+		}
+		var ks []string
+		for k := range res.Fields {
+			ks = append(ks, k)
+		}
+		sort.Strings(ks)
+		for _, k := range ks {
+			fmt.Printf("   %-28s %s\n", k, res.Fields[k])
+		}
+		fmt.Printf("   other=%v notes=%v\n", res.Other, res.Notes)
+	}
+	for _, spec := range strings.Fields(os.Getenv("FUN")) {
+		fn := prog.Func(spec)
+		if fn == nil {
+			t.Fatalf("no func %s", spec)
+		}
+		alts, err := New(prog.SPkg).AnalyzeFunc(fn)
+		fmt.Printf("== FUN %s err=%v\n", spec, err)
+		for _, a := range alts {
+			fmt.Printf("   cond=%v results=%v errNil=%v/%v\n", a.Cond, a.Results, a.ErrNil, a.ErrKnown)
+		}
+	}
 	for _, spec := range strings.Fields(os.Getenv("DEC")) {
 		fn := prog.Func(spec)
 		if fn == nil {
